@@ -159,6 +159,8 @@ def model_histories(cases):
 def canon_model_ans(a):
     if "err" in a:
         cls = a["err"][0]
+        if cls == "Other":  # Err.other carries the class name (ArityMismatchError)
+            cls = a["err"][1]
         if cls == "MissingDependenciesError":
             return {"err": [cls, sorted([k, sorted(v)] for k, v in a["err"][1])]}
         return {"err": [cls]}
@@ -373,46 +375,6 @@ def evaluate(ctx, cases, judge):
         judge.report(c, rep)
 
 
-# --------------------------------------------------------------------------- readout arity (R vs S only)
-
-
-def arity_stratum(ctx):
-    """`_create_cache` also checks the arity of readout functions, which the Lean model does not carry.
-    Query, add a readout whose function takes two arguments for one name, query again: R must answer as S."""
-    import warnings
-
-    warnings.filterwarnings("ignore")
-    from mxlpy import Model
-
-    def build():
-        m = Model()
-        for op in G.BASE:
-            O.apply_mut(m, op)
-        return m
-
-    bad = O.mkfn(["+", ["a", 0], ["a", 1]], 2)
-    for q in G.QUERIES[:4]:
-        m = build()
-        O.run_query(m, q)
-        m.add_readout("n1", fn=bad, args=["x"])
-        r = O.run_query(m, q)
-        f = build()
-        f.add_readout("n1", fn=bad, args=["x"])
-        s = O.run_query(f, q)
-        case = {"ops": ["BASE", q, ["add_readout", "n1", "two-argument function", ["x"]], q]}
-        ctx.count(case, "arity:add_readout")
-        ctx.judge(case, r, s, None, what="query after add_readout with an arity mismatch")
-        m = build()
-        m.add_readout("n1", fn=bad, args=["x"])
-        O.run_query(m, q)
-        m.remove_readout("n1")
-        r = O.run_query(m, q)
-        s = O.run_query(build(), q)
-        case = {"ops": ["BASE", ["add_readout", "n1", "two-argument function", ["x"]], q, ["remove_readout", "n1"], q]}
-        ctx.count(case, "arity:remove_readout")
-        ctx.judge(case, r, s, None, what="query after remove_readout of an arity mismatch")
-
-
 # --------------------------------------------------------------------------- entry points
 
 
@@ -422,7 +384,8 @@ def setup(ctx):
     ctx.translate(T.generate)
     ctx.build(PROPS)
     ctx.rule = (
-        "op histories over all 30 public Model mutators (valid and invalid arguments) and 10 query forms; distinct = "
+        "op histories over all 30 public Model mutators (valid and invalid arguments, keyword / object variants, "
+        "functions with stated signatures) and 35 query forms, deep copies; distinct = "
         "distinct op lists; non-trivial = contains at least one mutator after the build prefix. Exhaustive stratum "
         "(seed-independent): build; q1|none; m; q2; battery for every mutator x every listed argument choice x "
         "(none + 2 query forms in quick, none + 10 in thorough) x 10 query forms (incl. get_stoichiometries[_of_variable])."
@@ -430,7 +393,9 @@ def setup(ctx):
     ctx.assumptions += [
         "data sets are scalars (the Model stores whatever object it is given; pandas objects are not modelled)",
         "units / sources of components are not modelled; functions are total (+ - * on dyadic rationals)",
-        "function-arity checks are not in the Lean model; the readout arity path is covered by an R-vs-S stratum only",
+        "the functions of surrogates and of computed stoichiometric coefficients are called with as many values as they "
+        "take (no arity check exists for them in the code); functions with a stated signature are either rejected by "
+        "the arity check or callable with their argument list",
     ]
     ctx.trusted_base += [
         "translate/c03.py: reads decorator lists and the order of self._ids / container statements of every public "
@@ -446,7 +411,7 @@ def run(ctx):
               for e in list(ctx.fixed.values()) + list(ctx.known.values())
               if e.get("witness", {}).get("ops") and e["witness"]["ops"][0] != "BASE"]
     evaluate(ctx, corpus, judge)
-    arity_stratum(ctx)
+    evaluate(ctx, list(G.arity_histories()), judge)
     ctx.exhaustive = True
     thorough = ctx.tier == "thorough"
     cur = []
@@ -486,8 +451,8 @@ def replay(ctx, rp):
     case = rp["case"]
     ops = case["ops"]
     if ops and ops[0] == "BASE":
-        print("arity stratum replay: re-running the stratum")
-        arity_stratum(ctx)
+        print("replay of the former R-vs-fresh arity stratum: the arity histories are part of the stream now")
+        evaluate(ctx, list(G.arity_histories()), Judge(ctx))
         return
     R, S = run_history({"ops": ops, "check_from": 0})
     M = model_histories([{"ops": ops}])[0] if ctx.driver_ok else None
